@@ -135,6 +135,7 @@ func (a Authenticator) Handle(response tq.Response, request tq.Request) {
 					tq.SetAuthenReplyServerMsg("login failure"),
 				),
 			)
+			return
 		}
 		expectedHash = secret
 	}
